@@ -1,0 +1,43 @@
+//go:build verif
+
+package lossy
+
+import "github.com/deepteams/webp/internal/bitio"
+
+// VerifTokenBufferRun drives a TokenBuffer the way the encoder does: for every macroblock that is
+// not skipped, MarkMBStart and then RecordToken for each of its (bit, prob) pairs; skipped
+// macroblocks record nothing. It then replays every partition through EmitTokensPartitioned into a
+// fresh BoolWriter and returns the finished bytes of each partition. Two passes are run on the same
+// buffer (Reset in between) so that pooled pages and stale marks are exercised; the bytes of the
+// second pass are returned.
+func VerifTokenBufferRun(mbW int, toks [][][2]uint8, skipped []bool, numParts int) [][]byte {
+	var tb TokenBuffer
+	tb.Init(len(toks))
+	var out [][]byte
+	for pass := 0; pass < 2; pass++ {
+		if pass > 0 {
+			tb.Reset()
+		}
+		for i := range toks {
+			// first pass: the opposite skip pattern, to leave stale marks behind
+			skip := skipped[i]
+			if pass == 0 {
+				skip = !skip
+			}
+			if skip {
+				continue
+			}
+			tb.MarkMBStart(i)
+			for _, t := range toks[i] {
+				tb.RecordToken(int(t[0]), t[1])
+			}
+		}
+		out = make([][]byte, numParts)
+		for p := 0; p < numParts; p++ {
+			bw := bitio.NewBoolWriter(0)
+			tb.EmitTokensPartitioned(bw, p, numParts, mbW)
+			out[p] = append([]byte(nil), bw.Finish()...)
+		}
+	}
+	return out
+}
